@@ -222,6 +222,18 @@ for _ in range(40):
     def hu():
         _unpack_sdp_into_packet(t, bs); return "(" + ",".join(sdp_state(t)) + ")"
     add("unpack_sdp_into_packet " + sdp_args(p) + " " + L([int(b) for b in bytearray(bs)]), exc_(hu))
+for _ in range(60):
+    bs = bytes(bytearray(rng.getrandbits(8) for _ in range(rng.choice([0, 9, 10, 12, 13, 14, 17, 18, 21, 22, 25, 26, 30]))))
+    n_args = rng.choice([0, 1, 2, 3, 3, 4, -1])
+    init = SCPPacket()
+    def hf():
+        q = SCPPacket.from_bytestring(bs, n_args)
+        return "(" + ",".join(sdp_state(q) + [show(q.cmd_rc), show(q.seq), SO(q.arg1), SO(q.arg2), SO(q.arg3)]) + ")"
+    add("SCPPacket_from_bytestring false 255 0 0 7 31 0 0 0 0 [] 0 0 none none none %s %s" % (L([int(b) for b in bytearray(bs)]), L(n_args)), exc_(hf))
+    def hg():
+        q = SDPPacket.from_bytestring(bs)
+        return "(" + ",".join(sdp_state(q)) + ")"
+    add("SDPPacket_from_bytestring false 255 0 0 7 31 0 0 0 0 [] %s" % L([int(b) for b in bytearray(bs)]), exc_(hg))
 def EV(evs):
     return "[" + ",".join('{name:="%s",ints:=%s,bytes:=%s}' % (n, show(i), show(b)) for n, i, b in evs) + "]"
 from rig.machine_control import boot as _boot
